@@ -82,7 +82,17 @@ func flipZeros(v reflect.Value, n *int, depth int) {
 			ec := reflect.New(e.Type()).Elem()
 			ec.Set(e)
 			flipZeros(ec, n, depth+1)
-			v.SetMapIndex(k, ec)
+			// a zero inside the key changes its sign too: -0 and +0 are the same key, the entry is stored
+			// again under the flipped spelling
+			kc := reflect.New(k.Type()).Elem()
+			kc.Set(k)
+			nk := 0
+			flipZeros(kc, &nk, depth+1)
+			if nk > 0 {
+				v.SetMapIndex(k, reflect.Value{})
+				*n += nk
+			}
+			v.SetMapIndex(kc, ec)
 		}
 	case reflect.Struct:
 		for i := 0; i < v.NumField(); i++ {
